@@ -27,6 +27,38 @@ def run(ctx):
         part = ["joint-api", "neighbor", "neighbor", "addpath", "brute", "scale-shift"][it % 6]
         k = rng.randint(1, 3)
         ws = [Fraction(rng.randrange(-12, 13), 4) for _ in range(k)]
+        if it % 3 == 0 and k >= 2:
+            ws[rng.randrange(k)] = Fraction(0)          # exact zeros at every position: a skipped component must not shift the others
+        # --- scalar API of the joint utility on stub components (score / null_score / mean_score) ---------------
+        stub_vals = [(Fraction(rng.randrange(-20, 21), 4), Fraction(rng.randrange(-20, 21), 4), Fraction(rng.randrange(-20, 21), 4)) for _ in range(k)]
+
+        def stub(vals):
+            class Stub(U.Utility):
+                def __call__(self, *a, **kw):
+                    return U.UtilityResult(score=float(vals[0]))
+
+                def null_score(self, *a, **kw):
+                    return float(vals[1])
+
+                def mean_score(self, *a, **kw):
+                    return float(vals[2])
+            return Stub()
+        js = U.JointUtility(*[stub(v) for v in stub_vals], weights=[float(w) for w in ws])
+        Xs = np.zeros((2, 1))
+        ys = np.zeros(2, dtype=int)
+        scase = dict(part="joint-scalar", weights=[str(w) for w in ws], components=[[str(x) for x in v] for v in stub_vals])
+        try:
+            got3 = (float(js(Xs, ys, Xs, ys, null_score=123.0).score), float(js.null_score(Xs, ys, Xs, ys)), float(js.mean_score(Xs, ys, Xs, ys)))
+            want3 = tuple(float(sum(w * v[t] for w, v in zip(ws, stub_vals))) for t in range(3))
+            ctx.case(scase, nontrivial=(k >= 2 and any(w not in (0, 1) for w in ws)), sample=scase, part="joint-scalar", k=k, zero_weight=any(w == 0 for w in ws))
+            if any(abs(a - b) > 1e-9 for a, b in zip(got3, want3)):
+                ctx.mismatch("JointUtility score / null_score / mean_score is not the weighted sum of the components'", scase, impl=got3, spec=want3)
+            ansj = ctx.model({"op": "joint", "weights": [str(w) for w in ws], "scalars": [str(v[0]) for v in stub_vals],
+                              "results": [str(v[0]) for v in stub_vals], "null": "123"})
+            if ansj is not None and (abs(float(Fraction(ansj["ok"]["scalar"])) - want3[0]) > 1e-9 or abs(float(Fraction(ansj["ok"]["call"])) - want3[0]) > 1e-9):
+                ctx.mismatch("model Ds.Util.jointScalar/jointCall differs", scase, model=ansj, spec=want3, failing_input=False, broken="corr:Ds.Util.jointScalar")
+        except Exception as e:  # noqa
+            ctx.mismatch("joint scalar API raised", scase, impl=exc_name(e) + repr(e))
         if part in ("neighbor", "joint-api", "scale-shift"):
             binary = rng.random() < 0.4
             ds = dsm.rand_dataset(rng, max_units=6, classes_max=(2 if binary else 4))
